@@ -225,14 +225,17 @@ macro_rules! purge_method_for_document_type {
       K: JwkStorage,
       I: KeyIdStorage,
     {
-      let (method, scope) = document.remove_method_and_scope(id).ok_or(Error::MethodNotFound)?;
+      // `remove_method_and_scope` also removes every reference to the method from the verification relationships,
+      // which reinserting the method cannot bring back: keep the document so that a failed purge leaves it unchanged.
+      let original: $t = document.clone();
+      let (method, _scope) = document.remove_method_and_scope(id).ok_or(Error::MethodNotFound)?;
 
       // Obtain method digest and handle error if this operation fails.
       let method_digest: MethodDigest = match MethodDigest::new(&method).map_err(Error::MethodDigestConstructionError) {
         Ok(digest) => digest,
         Err(error) => {
-          // Revert state by reinserting the method before returning the error.
-          let _ = document.insert_method(method, scope);
+          // Revert state by restoring the document before returning the error.
+          *document = original;
           return Err(error);
         }
       };
@@ -244,8 +247,8 @@ macro_rules! purge_method_for_document_type {
       {
         Ok(key_id) => key_id,
         Err(error) => {
-          // Reinsert method before returning.
-          let _ = document.insert_method(method, scope);
+          // Restore the document before returning.
+          *document = original;
           return Err(error);
         }
       };
@@ -284,15 +287,15 @@ macro_rules! purge_method_for_document_type {
               undo_error: Some(Box::new(key_id_insertion_error)),
             })
           } else {
-            // KeyId reinsertion succeeded. Now reinsert method.
-            let _ = document.insert_method(method, scope);
+            // KeyId reinsertion succeeded. Now restore the document.
+            *document = original;
             Err(Error::KeyStorageError(key_deletion_error))
           }
         }
         (Err(_key_deletion_error), Err(key_id_deletion_error)) => {
-          // We assume this means nothing got deleted. Reinsert the method and return one of the errors (perhaps
+          // We assume this means nothing got deleted. Restore the document and return one of the errors (perhaps
           // key_id_deletion_error as we really expect the key id storage to work as expected at this point).
-          let _ = document.insert_method(method, scope);
+          *document = original;
           Err(Error::KeyIdStorageError(key_id_deletion_error))
         }
       }
